@@ -21,6 +21,7 @@ class Checker:
         self.configs = set(); self.nontrivial = collections.defaultdict(set)
         self.samples = []
         self.deviations = deviations
+        self.bottomup = bool(shape['cfg'].get('bottomup')); self.pconsume = knobs.get('pConsume', 0); self.inj = set(shape.get('inj', []))
         self.inst = {}
         self.auth_notes = set(); self.auth_single_round = True; self.ylist = []; self.vflag = None; self.bytes = None
     # ------------------------------------------------------------------
@@ -79,9 +80,11 @@ class Checker:
             self.step(op)
     # ------------------------------------------------------------------
     def split(self, op):
-        pre = []; guards = []; cbs = []; enters = []; plines = []; llines = []; self.ylist = []; self.vflag = None; self.bytes = None
+        pre = []; guards = []; cbs = []; enters = []; plines = []; llines = []; self.cj = []; self.klines = []; self.ylist = []; self.vflag = None; self.bytes = None
         for t, a in op.lines:
-            if t == 'c': cbs.append((a[0], a[1]))
+            if t == 'c': cbs.append((a[0], a[1])); self.cj.append(('c', a[0], a[1]))
+            elif t == 'j': self.cj.append(('j', a[0], a[1]))
+            elif t == 'k': self.klines.append((a[0], a[1]))
             elif t == 'q':
                 req = (a[0], a[1], a[2], a[3])
                 if guards: guards[-1]['issue'].append(req)
@@ -200,6 +203,9 @@ class Checker:
         self.life(op, st, cbs, op.act)
         if kind == 'EXIT' and st['entered']:
             self.v('C03', 'life|states-still-entered-after-exit', op, sorted(st['entered'])); st['entered'] = set()
+        # ---- C05 delivery order
+        if kind in ('UPDATE', 'REACT', 'REACT2', 'QUERY') and before: self.order(op, kind, m, cbs, before, prev_op)
+        self.injected(op)
         # ---- C04 trace checks
         if processed: self.guards_trace(op, kind, guards, cbs, rounds, notes, before, pre, queued_before)
         # ---- C09 history
@@ -295,6 +301,78 @@ class Checker:
         for nkey in ('override-higher', 'remain-only-round', 'leftover', 'queue-full-rejected', 'random-walk-fell-off', 'enter-without-want', 'reenter-without-want', 'bad-prong', 'guards-missing', 'guards-unconsumed'):
             if nkey in notes: tag.append(nkey)
         return ','.join(ks) + ('|' + ','.join(tag) if tag else '')
+
+    # ------------------------------------------------------------------ C05
+    def order(self, op, kind, m, cbs, before, prev_op):
+        nodes = self.nodes; act = before[0]; sub = prev_op.sub
+        ans = m.ans
+        def consume(state, meth): return self.pconsume and (ans.h(state, 40 + meth) % 1000) < self.pconsume
+        def kids(n):
+            if nodes[n]['kind'] == 'C': return [nodes[n]['children'][ord(sub[n]) - 48]] if sub[n] not in '-.' else []
+            return nodes[n]['children']
+        exp = []
+        def simple(n, meth, pre):
+            if nodes[n]['kind'] == 'L': exp.append((meth, n)); return
+            if pre:
+                if self.named[n]: exp.append((meth, n))
+                for c in kids(n): simple(c, meth, pre)
+            else:
+                for c in kids(n): simple(c, meth, pre)
+                if self.named[n]: exp.append((meth, n))
+        consumed = [False]; expk = []
+        def deliver(n, meth):
+            exp.append((meth, n))
+            if consume(n, meth): consumed[0] = True; expk.append((meth, n))
+        def walk(n, meth, headfirst):
+            if consumed[0]: return
+            if nodes[n]['kind'] == 'L': deliver(n, meth); return
+            def head():
+                if self.named[n]: deliver(n, meth)
+            def subs():
+                for c in kids(n): walk(c, meth, headfirst)
+            if headfirst:
+                head()
+                if not consumed[0]: subs()
+            else:
+                subs()
+                if not consumed[0]: head()
+        bu = self.bottomup
+        if act[0] != '1': return
+        if kind == 'UPDATE':
+            fam = (7, 8, 9); simple(0, 7, True); simple(0, 8, True); simple(0, 9, False)
+        elif kind in ('REACT', 'REACT2'):
+            fam = (10, 11, 13)
+            for meth, hf in ((10, not bu), (11, not bu), (13, bu)):
+                consumed[0] = False; walk(0, meth, hf)
+        else:
+            fam = (12,); consumed[0] = False; walk(0, 12, not bu)
+        obs = [(me, s) for me, s in cbs if me in fam]
+        self.stats['C05.deliveries'] += len(obs)
+        if expk: self.stats['C05.ops-with-consume'] += 1; self.nontrivial['C05'].add((act, sub, kind, tuple(expk)))
+        else: self.nontrivial['C05'].add((act, sub, kind))
+        if obs != exp:
+            # classify
+            if sorted(obs) == sorted(exp): what = 'order'
+            elif len(obs) > len(exp) and obs[:len(exp)] != exp and set(exp) <= set(obs): what = 'delivered-after-consume-or-to-inactive'
+            elif set(obs) - set(exp): what = 'unexpected-delivery' + ('-after-consume' if expk else '')
+            else: what = 'missing-delivery'
+            self.v('C05', 'order|%s|%s%s' % (kind.lower().rstrip('2'), what, '|bottom-up' if bu else ''), op, {'expected': exp[:40], 'observed': obs[:40], 'consumed': expk})
+        if self.klines != expk and self.pconsume:
+            self.v('C00', 'harness|consume-script-mismatch', op, {'expected': expk, 'observed': self.klines})
+    def injected(self, op):
+        if not self.inj: return
+        seq = [x for x in self.cj if x[2] in self.inj]
+        down = (5, 7, 8, 10, 11); up = (9, 13, 15)
+        i = 0; n = len(seq)
+        while i < n:
+            t, me, s = seq[i]
+            nxt = seq[i + 1] if i + 1 < n else None
+            self.stats['C05.injected-pairs'] += 1
+            if nxt is None or nxt[1] != me or nxt[2] != s or nxt[0] == t:
+                self.v('C05', 'injected|handler-not-paired-with-own-handler', op, {'at': seq[max(0, i - 1):i + 3]}); i += 1; continue
+            if me in down and t != 'j': self.v('C05', 'injected|own-handler-before-injected-on-the-way-down|' + METH[me], op, s)
+            if me in up and t != 'c': self.v('C05', 'injected|injected-handler-before-own-on-the-way-up|' + METH[me], op, s)
+            i += 2
 
     # ------------------------------------------------------------------ C04
     def guards_trace(self, op, kind, guards, cbs, rounds, notes, before, pre, queued_before):
